@@ -113,7 +113,7 @@ def setup_hash(it, cfg):
 REGISTRY.add(Contract(
     "C02", INIT, "Process.__hash__", setup=setup_hash, env=ENV,
     configs=[{"memo": m, "ct": c} for m in (False, True) for c in ("cached", "none")],
-    ensures=["result == H(self._ident)", "self._hash == result"], raises={}, canaries=["result == 0"],
+    ensures=["result == H(self._ident)", "self._hash == result"], raises={}, canaries=["result == 0"], replay="c02:hash",
     note="hash(ident): objects that are equal hash alike"))
 
 
